@@ -25,7 +25,7 @@ ASSUMPTIONS = [
     "a product is accepted only when no error condition holds",
 ]
 FLOORS = {"c03_judged": 5000, "c03_unused_checked": 100, "c03_runs_with_plasmids_at_other_origins": 1000, "c03_runs_with_shared_record_ids": 1000}
-MUST_REACH = ["AssemblyManager._generate_modules_map", "AssemblyManager._generate_assembly"]
+MUST_REACH = ["AbstractVector.assemble", "AssemblyManager._generate_modules_map", "AssemblyManager._generate_assembly"]
 BUDGET_S = {"quick": 900, "thorough": 7200}
 EXHAUSTIVE = {"quick": False, "thorough": False}
 ALPHA = ["AAAC", "GTTT", "ACGT", "CCTA", "TTGA", "ATTA", "TAAT"]
